@@ -183,7 +183,21 @@ def node_session(binary, home, preload=None, blocks_timeout=60):
     Returns records of kind "tx" and "query" (exit status, what was displayed, what the specification expects)."""
     import socket
     recs = []
+
+    def free(port):
+        with socket.socket(socket.AF_INET, socket.SOCK_STREAM) as sk:
+            try:
+                sk.bind(("127.0.0.1", port))
+                return True
+            except OSError:
+                return False
     base = 20000 + (os.getpid() % 20000)
+    for _ in range(50):
+        if all(free(base + k) for k in range(3)):
+            break
+        base += 7
+    else:
+        raise RuntimeError("no free local ports for the node session")
     rpc, p2p, grpc = base, base + 1, base + 2
     node = "tcp://127.0.0.1:%d" % rpc
 
@@ -246,7 +260,16 @@ def node_session(binary, home, preload=None, blocks_timeout=60):
                              "--node", node, "-y", "-o", "json")
         txok = code == 0 and '"code":0' in out.replace(" ", "")
         recs.append({"kind": "tx", "cmd": argv[0], "exit": 0 if txok else 1, "argv": argv, "note": (err or out)[-300:] if not txok else ""})
-        time.sleep(2.0)
+        new_id_ = str(len(preload["fundraising"].get("auctionList", []))) if preload else "0"
+        t1 = time.time()
+        while txok and time.time() - t1 < 60:     # wait until the transaction is in a block (the auction exists)
+            c2, o2, e2 = cli("query", "fundraising", "get-auction", new_id_, "--node", node, "-o", "json", timeout=20)
+            if c2 == 0 or "not found" not in (o2 + e2).lower():
+                break
+            time.sleep(0.5)
+        else:
+            if txok:
+                raise RuntimeError("the transaction was accepted but not included in a block within 60 s (environment too slow?)")
         new_id = str(len(preload["fundraising"].get("auctionList", []))) if preload else "0"
         expected_auction = {"id": new_id, "auctioneer": alice, "start_price": "1.5", "selling_coin": "1000denoma", "paying_coin_denom": "denomb",
                             "status": "AUCTION_STATUS_STANDBY", "remaining": "1000denoma", "start": iso(start), "end": iso(end), "release": iso(rel)}
